@@ -2,6 +2,7 @@ package main
 
 import (
 	"go/ast"
+	"path/filepath"
 	"regexp"
 	"strings"
 )
@@ -100,6 +101,9 @@ func genDispatch(c *ctx) string {
 	b.WriteString("def dupScalarDropped : Bool := " + dupScalarForm(c) + "\n")
 	b.WriteString("def dirArgWrapperAccepted : Bool := " + dirArgTypeTest(c) + "\n")
 	b.WriteString("def descRaw : Bool := " + descForm(c) + "\n")
+	tod, ter := toolForms(c)
+	b.WriteString("def toolOmitsDirectives : Bool := " + tod + "\n")
+	b.WriteString("def toolEmbedRaw : Bool := " + ter + "\n")
 	b.WriteString("def eventVarsEmpty : Bool := " + eventVarsForm(c) + "\n")
 	b.WriteString("def schemaDuringScan : Bool := " + schemaRollbackForm(c) + "\n")
 	lnc, su, sbe := replaceArgVarsForms(c)
@@ -436,4 +440,81 @@ func argsInPlaceForm(c *ctx) string {
 		return "false"
 	}
 	return unknown("argsInPlace mixed forms", "resolve.go")
+}
+
+// toolForms reads cmd/ggqlgen/main.go.
+// omitsDirectives: which definitions do the three loops that attribute definitions to an input file and write
+// the -e / -w outputs range over?  Two whole-loop forms are known: `root.Types()` (directive definitions are
+// never written: D33) and `allDefs(root)` with the helper bodies and (*Root).Directives as pinned here.
+// embedRaw: is the printed SDL copied into the Go raw string literal of the -e output as it is (a backtick ends
+// the literal, a carriage return is dropped by the compiler: D73), or through appendRaw, with getSDL reading
+// the concatenation back through constString (bodies pinned here)?  Anything else fails closed.
+func toolForms(c *ctx) (omitsDirectives, embedRaw string) {
+	omitsDirectives, embedRaw = unknown("ggqlgen output loops", "main.go"), unknown("ggqlgen embed writer", "main.go")
+	tc, err := load(filepath.Join(filepath.Dir(filepath.Dir(c.dir)), "cmd", "ggqlgen"))
+	if err != nil {
+		return
+	}
+	fd := tc.funcs["main"]
+	if fd == nil {
+		return
+	}
+	norm := func(n ast.Node, cc *ctx) string {
+		t := regexp.MustCompile(`(?m)//.*$`).ReplaceAllString(cc.src(n), "")
+		return regexp.MustCompile(`\s+`).ReplaceAllString(t, " ")
+	}
+	src := norm(fd.Body, tc)
+	const rawW, escW = "buf = append(buf, t.SDL(true)...)", "buf = appendRaw(buf, t.SDL(true))"
+	form := func(rng, key, embedW string) []string {
+		return []string{
+			"for _, t := range " + rng + " { if t.Core() || exists[" + key + "] { continue } if e != nil { e.types[" + key + "] = true } if o != nil { o.types[" + key + "] = true } exists[" + key + "] = true }",
+			"buf = append(buf, \" = `\"...) for _, t := range " + rng + " { if t.Core() { continue } if e.types[" + key + "] { buf = append(buf, '\\n') " + embedW + " } } buf = append(buf, \"`\\n\"...)",
+			"for _, t := range " + rng + " { if t.Core() { continue } if o.types[" + key + "] { buf = append(buf, '\\n') " + rawW + " } }",
+		}
+	}
+	all := func(fs []string) bool {
+		for _, f := range fs {
+			if strings.Count(src, f) != 1 {
+				return false
+			}
+		}
+		return true
+	}
+	for _, w := range []string{rawW, escW} {
+		old := all(form("root.Types()", "t.Name()", w))
+		neu := all(form("allDefs(root)", "defKey(t)", w))
+		if !old && !neu {
+			continue
+		}
+		switch {
+		case old && !strings.Contains(src, "Directives") && !strings.Contains(src, "allDefs"):
+			omitsDirectives = "true"
+		case neu && strings.Count(src, "allDefs(root)") == 3:
+			ad, dk, rd := tc.funcs["allDefs"], tc.funcs["defKey"], c.funcs["Root.Directives"]
+			const wantAD = "{ types := root.Types() dirs := root.Directives() defs := make([]ggql.Type, 0, len(types)+len(dirs)) defs = append(defs, types...) return append(defs, dirs...) }"
+			const wantDK = "{ if _, ok := t.(*ggql.Directive); ok { return \"@\" + t.Name() } return t.Name() }"
+			const wantRD = "{ root.init() return root.dirs.list }"
+			if ad != nil && dk != nil && rd != nil && norm(ad.Body, tc) == wantAD && norm(dk.Body, tc) == wantDK && norm(rd.Body, c) == wantRD {
+				omitsDirectives = "false"
+			}
+		}
+		gs := tc.funcs["getSDL"]
+		if gs == nil {
+			return
+		}
+		gsrc := norm(gs.Body, tc)
+		switch {
+		case w == rawW && !strings.Contains(src, "appendRaw") && strings.Contains(gsrc, "return []byte(strings.Trim(literal.Value, \"`\")), nil"):
+			embedRaw = "true"
+		case w == escW && strings.Count(src, "appendRaw") == 1 && strings.Contains(gsrc, "if sdl, ok := constString(vspec.Values[0]); ok { return []byte(sdl), nil }"):
+			ar, cs := tc.funcs["appendRaw"], tc.funcs["constString"]
+			const wantAR = "{ for i := 0; i < len(s); i++ { switch s[i] { case '`': buf = append(buf, \"` + \\\"`\\\" + `\"...) case '\\r': buf = append(buf, \"` + \\\"\\\\r\\\" + `\"...) default: buf = append(buf, s[i]) } } return buf }"
+			const wantCS = "{ switch te := e.(type) { case *ast.BasicLit: if te.Kind == token.STRING { s, err := strconv.Unquote(te.Value) return s, err == nil } case *ast.BinaryExpr: if te.Op == token.ADD { x, xok := constString(te.X) y, yok := constString(te.Y) return x + y, xok && yok } } return \"\", false }"
+			if ar != nil && cs != nil && norm(ar.Body, tc) == wantAR && norm(cs.Body, tc) == wantCS {
+				embedRaw = "false"
+			}
+		}
+		return
+	}
+	return
 }
